@@ -43,6 +43,7 @@ def families(tier):
     add("two_inputs_delay_first", D["two_inputs_delay_first"], 0, 4)
     add("two_dpull_inputs", D["two_dpull_inputs"], 3, 4)
     add("a_dpull_b_c", D["a_dpull_b_c"], 4, 5)
+    add("adaptive_step", topos.ADAPTIVE, 3, 4)
     add("ring2_dfix", R["ring2_dfix"], 3, 5, delay_sum_ge_steps=True)
     add("ring2_dfix_scale_dfix", R["ring2_dfix_scale_dfix"], 3, 4, delay_sum_ge_steps=True)
     add("ring2_three", R["ring2_three"], 0, 4, delay_sum_ge_steps=True)
